@@ -54,4 +54,31 @@ dithering loop itself) -/
 def drawFreshExact (w h : Nat) (px : List RGB) (order : QImg → Nat → List Nat) : Out :=
   drawWith w h (SurfModel.Quant.quantize ((reduced w h px).map toQ) (truncHeight h) w 256 true) order
 
+/-! ## the subsampling threshold
+
+`draw` asks for 256 registers, so `ColorPalette::from_image` walks every pixel of the reduced image when
+`sample = height · width / (256 · 100) < 2` and only a pseudo-random subset otherwise (a colour that occurs
+only in skipped pixels then gets no register, and the picture is no longer exact).  The quantity is the
+quantiser model's `sampleRate` at the size `draw` passes: `w` columns, `h/6·6` rows, 256 colours. -/
+
+/-- registers `draw` asks `quantize` for -/
+def registers : Nat := 256
+
+/-- `sample` of `from_image` for the view of `w × h` pixels (`none`: the division panics) -/
+def sampleStep (w h : Nat) : Option Nat := SurfModel.Quant.sampleRate (truncHeight h) w registers
+
+/-- does the palette extraction skip pixels of a `w × h` view? -/
+def subsampled (w h : Nat) : Bool :=
+  match sampleStep w h with
+  | some s => decide (2 ≤ s)
+  | none => false
+
+/-- line protocol: `subsampled <w> <h>` ↦ `yes` / `no`; everything else is `SurfModel.Sixel.handle` -/
+def handle : List String → String
+  | ["subsampled", w, h] =>
+    match w.toNat?, h.toNat? with
+    | some w, some h => if subsampled w h then "yes" else "no"
+    | _, _ => "bad-op"
+  | other => SurfModel.Sixel.handle other
+
 end SurfModel.SixelDraw
